@@ -67,12 +67,27 @@ theorem unknown_closes (cfg : Cfg) (fuel : Nat) (w : World) (st : State) (input 
     serve cfg (fuel + 1) w st input acc used = (w, st, acc, used + cmdSize) := by
   simp only [serve, hd]
 
-/-- A truncated request (fewer bytes than the command or its announced path needs) only ends the
-    connection: nothing is sent and nothing changes. -/
+/-- A truncated request (fewer bytes than the command, its announced path or its announced payload
+    needs) only ends the connection: nothing is sent, the state is untouched, and the only thing that
+    can have changed is the file being uploaded (the part of a WRITE_FILE payload that did arrive). -/
 theorem truncated_closes (cfg : Cfg) (fuel : Nat) (w : World) (st : State) (input acc : Bytes) (used : Nat)
     (hd : decode input = .incomplete) :
-    serve cfg (fuel + 1) w st input acc used = (w, st, acc, used + input.length) := by
+    serve cfg (fuel + 1) w st input acc used = (partialWrite cfg w st input, st, acc, used + input.length) := by
   simp only [serve, hd]
+
+/-- … and nothing at all changes unless it is a WRITE_FILE with writing enabled and a file being written -/
+theorem truncated_changes_nothing (cfg : Cfg) (w : World) (st : State) (input : Bytes)
+    (h : truncatedWrite input = none ∨ cfg.allowWrite = false ∨ st.wo = none) :
+    partialWrite cfg w st input = w := by
+  unfold partialWrite
+  rcases h with h | h | h
+  · simp [h]
+  · cases truncatedWrite input with
+    | none => rfl
+    | some p => simp [h]
+  · cases truncatedWrite input with
+    | none => rfl
+    | some p => simp only [h]; split <;> rfl
 
 /-- fewer than 16 bytes never form a command -/
 theorem short_is_incomplete (s : Bytes) (h : s.length < 16) : decode s = .incomplete := by
@@ -221,6 +236,8 @@ theorem serve_sync (cfg : Cfg) (rs : List Req) (hwf : ∀ r ∈ rs, ReqWF r) :
     intro fuel w st acc used hf
     obtain ⟨f, rfl⟩ : ∃ f, fuel = f + 1 := ⟨fuel - 1, by simp at hf; omega⟩
     have := truncated_closes cfg f w st [] acc used (short_is_incomplete [] (by simp))
+    have hp : partialWrite cfg w st [] = w := truncated_changes_nothing cfg w st [] (Or.inl (by decide))
+    rw [hp] at this
     simpa [runSteps] using this
   | cons r rest ih =>
     intro fuel w st acc used hf
